@@ -33,6 +33,10 @@ def corpus(tier, seed):
         std_spec("gauss2", s + 12, 50, flow_proposal_class="clusteringflowproposal"),
         std_spec("angle2", s + 21, 50, reparameterisations={"phi": "angle", "y": "rescaletobounds"}),
         std_spec("angle2", s + 22, 25, reparameterisations={"phi": "angle-2pi"}, kills=[150]),
+        # explicit reparameterisation for the SECOND parameter only: the proposal's parameter order differs
+        # from model.names
+        std_spec("angle2", s + 23, 50, reparameterisations={"y": "rescaletobounds"}),
+        std_spec("rosen2", s + 24, 50, reparameterisations={"x1": {"reparameterisation": "default"}}),
     ]
     if tier == "thorough":
         k = 13
